@@ -1,12 +1,9 @@
-mod c05;
-mod c20;
+mod c18;
 
 fn main() {
     let args = vpc::Args::parse();
     match args.prop.as_str() {
-        "C05" => c05::run(&args),
-        "C20" => c20::run(&args),
-        "C06" | "C07" => c05::run(&args),
+        "C18" => c18::run(&args),
         p => vpc::machinery_failure(&format!("property {p} is not served by this binary")),
     }
 }
